@@ -126,6 +126,14 @@ func (c12Sim) Gen(prop, tier string, r *rand.Rand) interface{} {
 			if chance(r, 0.08) {
 				cm.Item, cm.Src = pick(r, "web*", "w*"), pick(r, "x.wsp", "*.wsp")
 			}
+			if chance(r, 0.04) {
+				// a malformed pattern: refused alike by a directory and by a server
+				if chance(r, 0.5) {
+					cm.Item = pick(r, "grp/it[", "[")
+				} else {
+					cm.Src = pick(r, "a[.wsp", "[")
+				}
+			}
 		case 5, 6:
 			cm.Kind = "diff"
 			cm.Src = pick(r, "top.wsp", "grp/it0/a.wsp", "grp/it*/a.wsp", "grp/it0/*.wsp", "missing.wsp", "none*/x.wsp", "*.wsp", "*/*.wsp", "x*/*.wsp", "p+q/cpu+1&2=3.wsp", "p+*/*.wsp")
@@ -134,6 +142,9 @@ func (c12Sim) Gen(prop, tier string, r *rand.Rand) interface{} {
 			}
 			if chance(r, 0.08) {
 				cm.Src = pick(r, "web*/x.wsp", "w*/*.wsp")
+			}
+			if chance(r, 0.04) {
+				cm.Src = pick(r, "grp/it[/a.wsp", "grp/it0/[.wsp")
 			}
 			if chance(r, 0.3) {
 				// both bases are the served tree: two requests overlap inside one command
